@@ -19,7 +19,7 @@ A write by "another process" between the SELECT and the compare-and-swaps of a p
 back (ops pselect/lselect with a third argument) - the only way to exercise the compare-and-swap inside one process.
 
 Suites: corpus (minimised cases), systematic (interleavings of per-actor tokens: memory path / store poll / crash /
-clock jumps; exhaustive in the thorough tier where <= 5100 interleavings), default and legacy (seeded random scenarios, half of them
+clock jumps; exhaustive in the thorough tier where <= 10100 interleavings), default and legacy (seeded random scenarios, half of them
 drained: everybody dies, the clock passes every boundary, a fresh instance polls until idle), components
 (get_scheduled_jobs_to_start / _capture_scheduled_job / get_delayed_calls_to_start / _capture_calls on random tables
 vs candidates / cas / lcandidates). Every scenario is compared with `view (run cfg steps init)` evaluated in Coq.
@@ -293,6 +293,7 @@ class FakeExecutor:
 
 KEYS = [None, 'k1', 'k2']
 FOREIGN = 9     # instance id of the process that only exists as an injected write
+DRAINER = 7     # instance id of the fresh scheduler that polls until idle at the end of a drained scenario
 
 
 class Inst:
@@ -895,7 +896,7 @@ def choose_op(rng, w, ninst, maxjobs):
     return cands[-1][1]
 
 
-def drain_ops(w, ninst):
+def drain_ops(w, ninst=DRAINER):
     """Ops that let a live scheduler finish everything: end the transaction, optionally kill everybody,
     move the clock past every pickup/timeout boundary and poll until idle. Yields ops lazily."""
     pickup, timeout, batch = w.cfgv
@@ -915,15 +916,18 @@ def drain_ops(w, ninst):
             break
 
 
-def run_ops(cfgv, ops):
-    """Replay a fixed op list on the real code. Returns (world-result dict)."""
+def run_ops(cfgv, ops, drained=False):
+    """Replay a fixed op list on the real code (drained: the list ends with a drain, judge it as such)."""
     w = World(cfgv)
     try:
         done = []
         for op in ops:
             if w.apply(op):
                 done.append(list(op))
-        return finish_world(w, done, drained=False)
+        if drained:
+            for op in drain_ops(w):
+                w.apply(op)
+        return finish_world(w, done, drained=drained)
     finally:
         w.close()
 
@@ -951,9 +955,8 @@ def gen_scenario(rng, cfgv, nsteps, drain):
             if w.tx is not None and rng.random() < 0.3:
                 w.apply(('rollback',))
                 done.append(['rollback'])
-            for op in drain_ops(w, ninst):
-                if w.apply(op):
-                    done.append(list(op))
+            for op in drain_ops(w):      # not recorded: a replay with drained=True generates the drain again
+                w.apply(op)
         else:
             if w.tx is not None:
                 op = ('commit',) if rng.random() < 0.6 else ('rollback',)
@@ -1326,37 +1329,41 @@ def lgen_scenario(rng, cfgv, nsteps, drain):
             if w.apply(op):
                 done.append(list(op))
         if drain:
-            # nobody died: let every thread finish, move past every due time, poll until idle
-            def finish_threads():
-                guard = 0
-                while w.threads and guard < 50:
-                    guard += 1
-                    op = ('linvoke', 0) if w.threads[0].at[0] == 'invoke' else ('ldelete', 0)
-                    if w.apply(op):
-                        done.append(list(op))
-            finish_threads()
-            op = ('tick', 2 + max([j['delay'] for j in w.jobs] or [0]))
-            w.apply(op)
-            done.append(list(op))
-            for _ in range(len(w.jobs) + 2):
-                if w.apply(('lselect', 0)):
-                    done.append(['lselect', 0])
-                finish_threads()
-                if not w.rows():
-                    break
+            ldrain(w)
         return lfinish_world(w, done, drain)
     finally:
         w.close()
 
 
-def lrun_ops(cfgv, ops):
+def ldrain(w):
+    """Nobody died: let every thread finish, move past every due time, poll until idle (not recorded in the op list;
+    a replay with drained=True does it again)."""
+    def finish_threads():
+        guard = 0
+        while w.threads and guard < 50:
+            guard += 1
+            w.apply(('linvoke', 0) if w.threads[0].at[0] == 'invoke' else ('ldelete', 0))
+    if w.tx is not None:
+        w.apply(('commit',))
+    finish_threads()
+    w.apply(('tick', 2 + max([j['delay'] for j in w.jobs] or [0])))
+    for _ in range(len(w.jobs) + 2):
+        w.apply(('lselect', 0))
+        finish_threads()
+        if not w.rows():
+            break
+
+
+def lrun_ops(cfgv, ops, drained=False):
     w = LWorld(cfgv)
     try:
         done = []
         for op in ops:
             if w.apply(op):
                 done.append(list(op))
-        return lfinish_world(w, done, drained=False)
+        if drained:
+            ldrain(w)
+        return lfinish_world(w, done, drained=drained)
     finally:
         w.close()
 
@@ -1684,7 +1691,7 @@ def judge(ctx, suite, results, samples=1):
             ctx.disagree(suite, {'kind': r['kind'], 'cfg': r['cfg'], 'ops': r['ops'], 'fields': diffs},
                          {f: mv.get(f) for f in diffs}, {f: r['view'].get(f) for f in diffs})
         for sig, what in r['fails']:
-            ctx.fail(sig, what, {'kind': r['kind'], 'cfg': r['cfg'], 'ops': r['ops'], 'signature': sig})
+            ctx.fail(sig, what, {'kind': r['kind'], 'cfg': r['cfg'], 'ops': r['ops'], 'signature': sig, 'drained': r.get('drained', False)})
     for r in results[:samples]:
         if 'crashed' not in r:
             ctx.sample({'suite': suite, 'kind': r['kind'], 'cfg': r['cfg'], 'ops': r['ops'][:12], 'log': r['view']['log']})
@@ -1745,13 +1752,13 @@ def judge_components(ctx, cases):
     ctx.cov['suites'].setdefault(suite, {'evaluations': 0, 'distinct_nontrivial': 0})['kinds'] = kinds
 
 
-def shrink(kind, cfgv, ops, sig, budget=120):
+def shrink(kind, cfgv, ops, sig, drained=False, budget=120):
     """Greedy removal of ops while the oracle failure with this signature persists (implementation only)."""
     runner = run_ops if kind == 'default' else lrun_ops
 
     def fails(o):
         try:
-            r = runner(tuple(cfgv), o)
+            r = runner(tuple(cfgv), o, drained)
         except Exception:
             return None
         return r if any(f[0] == sig for f in r['fails']) else None
@@ -1789,7 +1796,7 @@ def shrink_failures(ctx, limit=4):
         rp = f['replay']
         if len(seen) > limit or 'ops' not in rp or len(rp['ops']) <= 4:
             continue
-        ops, what = shrink(rp.get('kind', 'default'), rp['cfg'], rp['ops'], sig)
+        ops, what = shrink(rp.get('kind', 'default'), rp['cfg'], rp['ops'], sig, rp.get('drained', False))
         if what is not None:
             f['replay'] = dict(rp, ops=ops, shrunk_from=len(rp['ops']))
             f['what'] = what
@@ -1809,7 +1816,7 @@ def run(ctx):
     prog_tasks = []
     for pi_, (name, cfgv, prefix, tokens) in enumerate(PROGRAMS):
         rng = random.Random('%s/prog/%s' % (ctx.seed, name))
-        limit = ctx.n(120, 5100)
+        limit = ctx.n(120, 10100)
         allp = None
         import math
         from collections import Counter
@@ -1880,7 +1887,7 @@ def search(ctx):
             if 'crashed' in r:
                 continue
             for sig, what in r['fails']:
-                ctx.fail(sig, what, {'kind': r['kind'], 'cfg': r['cfg'], 'ops': r['ops'], 'signature': sig})
+                ctx.fail(sig, what, {'kind': r['kind'], 'cfg': r['cfg'], 'ops': r['ops'], 'signature': sig, 'drained': r.get('drained', False)})
     shrink_failures(ctx)
 
 
@@ -1889,9 +1896,10 @@ def replay(obj):
     if 'ops' not in r:
         print(json.dumps(obj, indent=1)[:4000])
         return 1
-    res = (run_ops if r.get('kind', 'default') == 'default' else lrun_ops)(tuple(r['cfg']), r['ops'])
+    res = (run_ops if r.get('kind', 'default') == 'default' else lrun_ops)(tuple(r['cfg']), r['ops'], r.get('drained', False))
     print('configuration (pickup, timeout, batch) = %s' % (r['cfg'],))
-    print('ops: %s' % json.dumps(res['ops']))
+    print('ops: %s%s' % (json.dumps(res['ops']), '  + drain (everybody dies, clock passes every boundary, a fresh scheduler polls '
+                                                 'until idle)' if r.get('drained') else ''))
     print('invocation log (job, time, instance): %s' % (res['view']['log'],))
     print('rows left: %s   query answers: %s' % (res['view']['rows'], res['view']['obs']))
     want = r.get('signature') or obj.get('signature')
